@@ -62,7 +62,7 @@ EXIT_MAP = [0, 1, 12]
 def BOUNDS(tier):
     if tier == "quick":
         return {"max_nodes": 4, "devs": {2: 3, 3: 3, 4: 2}, "preemptions": 2, "max_merges": 300}
-    return {"max_nodes": 5, "devs": {2: 3, 3: 4, 4: 3, 5: 2}, "preemptions": 3, "max_merges": 2000}
+    return {"max_nodes": 5, "devs": {2: 3, 3: 4, 4: 2, 5: 1}, "preemptions": 3, "max_merges": 1000}
 
 
 THR_HARNESSES = [
